@@ -8,6 +8,7 @@ package main
 import (
 	"fmt"
 	"go/types"
+	"os"
 	"regexp"
 	"sort"
 	"strings"
@@ -294,8 +295,11 @@ func arRules(p *Prog, rp *Report, c13 bool) {
 	if next != nil {
 		pos = p.Pos(next.Pos())
 	}
+	if os.Getenv("GDSA_FORCE_BOUNDED") != "" {
+		why = "forced by GDSA_FORCE_BOUNDED"
+	}
 	if why != "" {
-		rp.Rule("AR-MODEL", "the ar reader fits the symbolic-header model", 1).undecided("deb.Ar.Next", pos, why)
+		arRulesBounded(p, rp, c13, pos, why)
 		return
 	}
 	var succ []arRun
@@ -489,6 +493,17 @@ func arRules(p *Prog, rp *Report, c13 bool) {
 	if c13 {
 		c13Global(p, rp)
 	}
+	// cross-check on concrete archives (always run; the fallback when the symbolic model does not apply)
+	fam := rp.Rule(prefix+"-FAMILY", "LoadAr / Next agree with an ar(5) reference reader on a family of concrete archives", 1)
+	if b := arConcrete(p); b.undecided != "" {
+		fam.ok("deb.Ar.Next", pos, "not evaluated (the symbolic rules above decide; the concrete interpretation stopped at: "+clip(b.undecided, 160)+")")
+	} else {
+		var all []string
+		for _, k := range []string{"COLS", "OFFSET", "HDRMAGIC", "MAGIC", "SHORT", "LAST"} {
+			all = append(all, b.problems[k]...)
+		}
+		fillProblems(fam, "deb.Ar.Next", pos, all, fmt.Sprintf("%d archives (well-formed with 1 to 3 members, column variants, header and global magic, truncation): members, data offsets and the end of the iteration equal the reference", b.nArchives))
+	}
 }
 
 // c13Global: LoadAr / checkAr.
@@ -571,4 +586,31 @@ func c13Global(p *Prog, rp *Report) {
 	}
 	sort.Strings(problems)
 	r.check(len(problems) == 0, "deb.LoadAr", pos, "correct magic -> offset 8; each of the 8 bytes altered, a short file and a read error -> error", strings.Join(problems, "; "))
+}
+
+// arRulesBounded fills the ar rules from the concrete-archive family (the reader left the symbolic model).
+func arRulesBounded(p *Prog, rp *Report, c13 bool, pos, why string) {
+	b := arConcrete(p)
+	prefix := "C15"
+	if c13 {
+		prefix = "C13"
+	}
+	if b.undecided != "" {
+		rp.Rule("AR-MODEL", "the ar reader fits the symbolic-header model or the concrete-archive family", 1).undecided("deb.Ar.Next", pos, "symbolic header: "+why+"; concrete archives: "+b.undecided)
+		return
+	}
+	note := fmt.Sprintf("(bounded: the reader left the symbolic-header model: %s) on %d concrete archives compared with an ar(5) reference reader: ", clip(why, 120), b.nArchives)
+	if c13 {
+		fillProblems(rp.Rule("C13-LAST", "a well-formed member is returned even when the archive ends right after its data", 1), "deb.Ar.Next", pos, b.problems["LAST"], note+"the last member is returned although the archive ends right after its data")
+		cols := rp.Rule("C13-COLS", "entry fields derive from the ar(5) header columns", 6)
+		for _, c := range []string{"Name", "Timestamp", "OwnerID", "GroupID", "FileMode", "Size"} {
+			fillProblems(cols, "deb.ArEntry."+c, pos, b.problems["COLS"], note+"every entry field equals the reference (column variants: blank, zero, large, non-numeric, negative, inner blanks)")
+		}
+		fillProblems(rp.Rule("C13-NAME", "name = columns 0-16, blanks trimmed, then one trailing '/' removed", 1), "deb.ArEntry.Name", pos, b.problems["COLS"], note+"9 name shapes (GNU '/' terminator, inner blank, 16 bytes, inner and double slashes, blank, a lone slash) (GNU '/' terminator, inner blank, 16 bytes, inner and double slashes)")
+		fillProblems(rp.Rule("C13-FRESH", "every member gets its own section reader; the iterator keeps no reference to it", 1), "deb.Ar.Next", pos, b.problems["OFFSET"], note+"every member's Data is its own NewSectionReader(archive, data offset, size)")
+		fillProblems(rp.Rule("C13-MAGIC", "global header: the 8 bytes \"!<arch>\\n\" at offset 0; iteration starts at offset 8", 1), "deb.LoadAr", pos, b.problems["MAGIC"], note+"each of the 8 bytes changed and archives shorter than 8 bytes are rejected by LoadAr")
+	}
+	fillProblems(rp.Rule(prefix+"-OFFSET", "member data = NewSectionReader(archive, off+60, size); next offset = off+60+size+size%2; at least 60 bytes of progress per member", 1), "deb.Ar.Next", pos, append(append([]string(nil), b.problems["OFFSET"]...), b.problems["COLS"]...), note+"data offsets and the following members (sizes 0, 1, 4, 5: padding after odd sizes) equal the reference; negative sizes are rejected")
+	fillProblems(rp.Rule(prefix+"-HDRMAGIC", "a member is returned only from a header ending in 0x60 0x0A", 1), "deb.Ar.Next", pos, b.problems["HDRMAGIC"], note+"5 wrong header endings end the iteration with an error")
+	fillProblems(rp.Rule(prefix+"-SHORT", "a failed or short header read never yields a member", 1), "deb.Ar.Next", pos, b.problems["SHORT"], note+"archives cut inside a header yield no further member; the clean end gives io.EOF")
 }
